@@ -122,6 +122,65 @@ def chk_impl(EoN, sim, cases):
     return res
 
 
+def seeded_battery(EoN, rng, tier):
+    """the implementation under the REAL random module (seeded), larger graphs (12-40 nodes, density ~ 3/n),
+    the four simulators with the default rule and a random p, 1-3 initial infected, 0-2 initial recovered,
+    whole-step horizons; both return modes (they are different epidemics here: the plain arrays are judged by
+    dwf_rowsb, the full-data object by dinit_okb / dtx_okb / consistent_b against its own summary()).
+    Returns [(case, verdict, plain, full)] like chk_impl."""
+    import random as pyrandom
+    n_cases = 120 if tier == 'quick' else 1200
+    lines, runs = [], []
+    for i in range(n_cases):
+        kind = DL.KINDS[i % 4]
+        n = rng.randint(12, 40)
+        gc = R.gen_graph(rng, nmax=n, nmin=n, directed=(kind in ('DSIR', 'BSIR', 'SIS') and rng.random() < 0.25), density=min(1.0, 3.0 / n))
+        order = gc.order
+        k0 = rng.randint(1, 3)
+        sel = rng.sample(order, k0)
+        rest = [u for u in order if u not in sel]
+        r0 = rng.sample(rest, rng.randint(0, 2)) if kind != 'SIS' and rng.random() < 0.4 else None
+        tmin = F(rng.choice([0, 0, 5, -3]), rng.choice([1, 2]))
+        tmax = tmin + rng.randint(2, 8) if (kind == 'SIS' or rng.random() < 0.5) else None
+        p = rng.choice([0.2, 0.35, 0.5, 0.8])
+        seed = rng.randint(0, 10 ** 6)
+        case = {'kind': kind, 'gc': gc, 'i0': sel, 'r0': r0, 'rho': None, 'tmin': tmin, 'tmax': tmax, 'rec': None,
+                'seeded': {'p': p, 'seed': seed}}
+        kw = dict(initial_infecteds=list(sel), tmin=float(tmin))
+        if tmax is not None: kw['tmax'] = float(tmax)
+        if r0 is not None: kw['initial_recovereds'] = list(r0)
+        f = {'DSIR': lambda **k: EoN.discrete_SIR(gc.G, args=(p,), **k), 'BSIR': lambda **k: EoN.basic_discrete_SIR(gc.G, p, **k),
+             'SIS': lambda **k: EoN.basic_discrete_SIS(gc.G, p, **k), 'PSIR': lambda **k: EoN.percolation_based_discrete_SIR(gc.G, p, **k)}[kind]
+        try:
+            pyrandom.seed(seed); arrs = f(return_full_data=False, **kw)
+            pyrandom.seed(seed + 1); inv = f(return_full_data=True, **kw)
+            plain = {'rows': R.canon_arrays(arrs)}
+            hist, trans = R.canon_full(inv, gc, DL.CODE)
+            cols = [inv.t(), inv.S(), inv.I()] + ([inv.R()] if kind != 'SIS' else [])
+            full = {'hist': hist, 'trans': trans, 'rows': R.canon_arrays(cols)}
+            bad = None
+            if isinstance(plain['rows'], tuple) or isinstance(trans, str) or any(isinstance(h, str) for h in hist.values()) or isinstance(full['rows'], tuple):
+                bad = ('unusable outputs', plain['rows'] if isinstance(plain['rows'], tuple) else None, trans if isinstance(trans, str) else None)
+        except Exception as e:
+            plain = full = None; bad = ('raised', type(e).__name__, str(e)[:100])
+        runs.append((case, bad, plain, full))
+        # two driver lines: plain arrays (traj, init on row 0), full-data object (init, tx, cons against its own summary)
+        lines.append(dxchk_line(case) if bad else dxchk_line(case, plain['rows'], None, None))
+        lines.append(dxchk_line(case) if bad else dxchk_line(case, full['rows'], full['trans'], full['hist']))
+    outs = C.run_model(lines, XCOMP) if lines else []
+    res = []
+    for i, (case, bad, plain, full) in enumerate(runs):
+        a, b = parse(outs[2 * i]), parse(outs[2 * i + 1])
+        if 'fail' in a or 'fail' in b:
+            d = {'fail': (a.get('fail'), b.get('fail'))}
+        else:
+            d = {'wf': a.get('wf'), 'traj': a.get('traj'), 'init': (a.get('init') is not False) and b.get('init'), 'tx': b.get('tx'), 'cons': b.get('cons')}
+            if b.get('init') is None: d['init'] = a.get('init')
+        if bad is not None: d['impl_failed'] = bad
+        res.append((case, d, plain, full))
+    return res
+
+
 def shown(field, plain, full):
     if field == 'traj': return plain['rows'][:8]
     if field == 'init': return (plain['rows'][:1], {k: v[:2] for k, v in list(full['hist'].items())[:5]})
@@ -189,10 +248,21 @@ def part(run, tier, pid, props, per):
         return
     cases = gen_cases(run.rng, tier, rho_ok=(pid == 'C04'))
     stat = {}
-    for case, v, plain, full in chk_impl(EoN, sim, cases):
+    results = chk_impl(EoN, sim, cases)
+    try:
+        results += seeded_battery(EoN, run.rng, tier)
+    except Exception as e:
+        import traceback
+        run.violation('%s/discx/harness-crash' % pid, 'the seeded battery of discx crashed: %s' % e, {'traceback': traceback.format_exc()}, no_input=True)
+    for case, v, plain, full in results:
         entry = DL.ENTRY[case['kind']]
-        st = stat.setdefault(entry, {'judged': 0, 'rejected': 0, 'nontrivial': 0})
-        rj = dict(DL.case_json(case, []), entry=entry, discx=chk)
+        st = stat.setdefault(entry, {'judged': 0, 'rejected': 0, 'nontrivial': 0, 'seeded_judged': 0})
+        if 'seeded' in case:
+            st['seeded_judged'] += 1
+            rj = {'kind': case['kind'], 'graph': case['gc'].to_json(), 'i0': [repr(u) for u in case['i0']], 'r0': None if case['r0'] is None else [repr(u) for u in case['r0']],
+                  'tmin': str(case['tmin']), 'tmax': None if case['tmax'] is None else str(case['tmax']), 'seeded': case['seeded'], 'entry': entry, 'discx': chk}
+        else:
+            rj = dict(DL.case_json(case, []), entry=entry, discx=chk)
         if 'fail' in v:
             run.violation('%s/discx/driver' % pid, 'checker driver failed: %r' % (v['fail'],), rj, no_input=True); continue
         if not v.get('wf'):
